@@ -259,3 +259,18 @@ func (p *Prog) InstrPos(in ssa.Instruction) string {
 	}
 	return "-"
 }
+
+// MethodsOf returns the declared (not promoted, not synthetic) methods with bodies whose receiver type is recv.
+func (p *Prog) MethodsOf(recv types.Type) []*ssa.Function {
+	var out []*ssa.Function
+	for _, fn := range p.Funcs {
+		if fn.Parent() != nil || fn.Signature.Recv() == nil || fn.Blocks == nil || fn.Synthetic != "" {
+			continue
+		}
+		if types.Identical(fn.Signature.Recv().Type(), recv) {
+			out = append(out, fn)
+		}
+	}
+	sort.Slice(out, func(i, j int) bool { return fnName(out[i]) < fnName(out[j]) })
+	return out
+}
